@@ -274,6 +274,13 @@ func (c *connection) Close() error {
 	// so this lifeMu-held Wait cannot deadlock against the loop (round-8).
 	c.connectLoopWg.Wait()
 
+	// The supervisor has stopped and every generation (including a reconnect successor re-pinned
+	// above) and every reconnect loop is joined, so nothing can commit a state change any more. The
+	// synchronous commits are lock-free CASes that do not consult the supervisor's closed latch: a
+	// reconnect's TCP-up commit landing after evClose was processed leaves the atomic at NotSelected.
+	// Close's contract is State() == NotConnected once it returns, so publish that terminal value.
+	s.state.Store(uint32(NotConnectedState))
+
 	return err
 }
 
